@@ -9,7 +9,7 @@ Definition x_prepare := prepare cledger N cl_pre cl_exec cl_commit_of cl_uh_at.
 Definition no_data : bdata :=
   {| d_wf := false; d_ecvalid := false; d_prices := []; d_uh := 0; d_commit := []; d_txs := [] |}.
 
-Definition prepared_data (c : c_state) (meta : N) (mem : list tx) (prices : list (N * N)) : bdata :=
+Definition prepared_data (c : c_state) (meta : bmeta) (mem : list tx) (prices : list (N * N)) : bdata :=
   match x_prepare (c_init c) meta mem prices with
   | (_, OPrepared _ _ d) => d
   | _ => no_data
@@ -17,21 +17,28 @@ Definition prepared_data (c : c_state) (meta : N) (mem : list tx) (prices : list
 
 (** committed state: two currency pairs (1 = BTC/USD with id 0, 2 = ETH/USD with id 1), height 4 *)
 Definition x_c : c_state :=
-  {| s_l := {| cl_nonces := []; cl_log := []; cl_height := 400000000 |};
+  {| s_l := {| cl_nonces := []; cl_log := []; cl_height := 4; cl_time := 400; cl_nvh := 0;
+               cl_vals := [(0, 10); (1, 10); (2, 10); (3, 10)]; cl_block := (0, 0) |};
      s_o := {| o_pairs := [(1, {| ps_id := 0; ps_nonce := 0; ps_price := Some (5834065777, 0) |});
                            (2, {| ps_id := 1; ps_nonce := 0; ps_price := Some (3138872234, 0) |})];
                o_next := 2; o_num := 2 |} |}.
 
-Definition x_meta : N := 500000000.
+Definition x_meta : bmeta :=
+  {| m_height := 5; m_time := 500; m_proposer := 0; m_nvh := 0; m_lc_round := 0;
+     m_lc_votes := [(0, 2); (1, 2); (2, 2); (3, 1)]; m_misb := [] |}.
+(** the same request fields at another block time (another round of the height) *)
+Definition x_meta_at (dt : N) : bmeta :=
+  {| m_height := 5; m_time := 500 + dt; m_proposer := 1; m_nvh := 0; m_lc_round := 0;
+     m_lc_votes := [(0, 2); (1, 2); (2, 2); (3, 1)]; m_misb := [] |}.
 
 Definition t_transfer : tx :=
-  {| tx_id := 1; tx_signer := 1; tx_nonce := 0; tx_group := 4; tx_body := 0; tx_oacts := [] |}.
+  {| tx_id := 1; tx_signer := 1; tx_nonce := 0; tx_group := 4; tx_body := 0; tx_oacts := []; tx_vupd := [] |}.
 Definition t_failing : tx :=
-  {| tx_id := 2; tx_signer := 2; tx_nonce := 0; tx_group := 4; tx_body := 1; tx_oacts := [] |}.
+  {| tx_id := 2; tx_signer := 2; tx_nonce := 0; tx_group := 4; tx_body := 1; tx_oacts := []; tx_vupd := [] |}.
 Definition t_remove_btc : tx :=
-  {| tx_id := 3; tx_signer := 0; tx_nonce := 0; tx_group := 2; tx_body := 0; tx_oacts := [ORemove [1]] |}.
+  {| tx_id := 3; tx_signer := 0; tx_nonce := 0; tx_group := 2; tx_body := 0; tx_oacts := [ORemove [1]]; tx_vupd := [] |}.
 Definition t_add_sol : tx :=
-  {| tx_id := 4; tx_signer := 0; tx_nonce := 0; tx_group := 2; tx_body := 0; tx_oacts := [OAdd [3]] |}.
+  {| tx_id := 4; tx_signer := 0; tx_nonce := 0; tx_group := 2; tx_body := 0; tx_oacts := [OAdd [3]]; tx_vupd := [] |}.
 
 (* ------------------------------------------------------------------------------------------ *)
 (** * F7: prices for BTC/USD and ETH/USD, and a transaction removing BTC/USD *)
@@ -122,20 +129,20 @@ Definition ok_D : block :=
 
 (** another proposal of the height: invalid (contains the failing transaction) *)
 Definition other_X : block :=
-  {| b_hash := 79; b_meta := x_meta + 100;
+  {| b_hash := 79; b_meta := x_meta_at 100;
      b_data := {| d_wf := true; d_ecvalid := true; d_prices := ok_prices; d_uh := 0;
                   d_commit := [2; 4]; d_txs := [t_failing; t_add_sol] |} |}.
 (** and a valid one *)
 Definition other_Z : block :=
-  {| b_hash := 80; b_meta := x_meta + 200;
-     b_data := prepared_data x_c (x_meta + 200) [t_add_sol] [(1, 7); (2, 9)] |}.
+  {| b_hash := 80; b_meta := x_meta_at 200;
+     b_data := prepared_data x_c (x_meta_at 200) [t_add_sol] [(1, 7); (2, 9)] |}.
 
 Definition path_P := [RProposer x_meta ok_mem ok_prices (Some 78)].
 Definition path_V := [RValidator ok_D].
 Definition path_O := [RValidator other_X; RValidator other_Z; RValidator ok_D].
-Definition path_R2 := [RProposer (x_meta + 300) [t_add_sol; t_transfer] [] (Some 81); RValidator ok_D].
+Definition path_R2 := [RProposer (x_meta_at 300) [t_add_sol; t_transfer] [] (Some 81); RValidator ok_D].
 Definition path_F : list round := [].
-Definition path_PF := [RProposer (x_meta + 300) [t_add_sol] [] None].
+Definition path_PF := [RProposer (x_meta_at 300) [t_add_sol] [] None].
 Definition path_VRX := [RValidator ok_D; RRestart; RValidator other_Z].
 
 Example ok_not_known : known_f7 (b_data ok_D) = false.
@@ -215,6 +222,142 @@ Proof.
 Qed.
 
 (* ------------------------------------------------------------------------------------------ *)
+(** * Near twins: the decided block equals a proposal the node has cached (prepared / processed)
+    except for ONE request field.  The cached execution must not be reused: every path agrees with
+    the fresh one, and -- on this ledger -- every field but the last commit is visible in the
+    result (the evidence removes validator 2; time / next validators hash go into the state;
+    proposer and block hash into the stored sequencer block). *)
+
+Definition with_misb (m : bmeta) (x : list N) : bmeta :=
+  {| m_height := m_height m; m_time := m_time m; m_proposer := m_proposer m; m_nvh := m_nvh m;
+     m_lc_round := m_lc_round m; m_lc_votes := m_lc_votes m; m_misb := x |}.
+Definition with_time (m : bmeta) (t : N) : bmeta :=
+  {| m_height := m_height m; m_time := t; m_proposer := m_proposer m; m_nvh := m_nvh m;
+     m_lc_round := m_lc_round m; m_lc_votes := m_lc_votes m; m_misb := m_misb m |}.
+Definition with_proposer (m : bmeta) (p : N) : bmeta :=
+  {| m_height := m_height m; m_time := m_time m; m_proposer := p; m_nvh := m_nvh m;
+     m_lc_round := m_lc_round m; m_lc_votes := m_lc_votes m; m_misb := m_misb m |}.
+Definition with_nvh (m : bmeta) (n : N) : bmeta :=
+  {| m_height := m_height m; m_time := m_time m; m_proposer := m_proposer m; m_nvh := n;
+     m_lc_round := m_lc_round m; m_lc_votes := m_lc_votes m; m_misb := m_misb m |}.
+Definition with_round (m : bmeta) (r : N) : bmeta :=
+  {| m_height := m_height m; m_time := m_time m; m_proposer := m_proposer m; m_nvh := m_nvh m;
+     m_lc_round := r; m_lc_votes := m_lc_votes m; m_misb := m_misb m |}.
+Definition with_votes (m : bmeta) (v : list (N * N)) : bmeta :=
+  {| m_height := m_height m; m_time := m_time m; m_proposer := m_proposer m; m_nvh := m_nvh m;
+     m_lc_round := m_lc_round m; m_lc_votes := v; m_misb := m_misb m |}.
+
+Definition twin_of (h : N) (m : bmeta) : block := {| b_hash := h; b_meta := m; b_data := b_data ok_D |}.
+
+Definition nt_misb : block := twin_of 178 (with_misb x_meta [2]).
+Definition nt_time : block := twin_of 179 (with_time x_meta 507).
+Definition nt_proposer : block := twin_of 180 (with_proposer x_meta 3).
+Definition nt_nvh : block := twin_of 181 (with_nvh x_meta 9).
+Definition nt_round : block := twin_of 182 (with_round x_meta 1).
+Definition nt_votes : block := twin_of 183 (with_votes x_meta [(0, 2); (1, 2); (2, 2); (3, 2)]).
+Definition nt_hash : block := twin_of 184 x_meta.
+Definition near_twins := [nt_misb; nt_time; nt_proposer; nt_nvh; nt_round; nt_votes; nt_hash].
+
+(** the node's earlier view of the height: the proposal [ok_D] prepared only / prepared and
+    processed / processed as a validator / prepared, then the near twin processed / processed,
+    then the near twin processed *)
+Definition nt_paths (T : block) : list (list round) :=
+  [ [RProposer x_meta ok_mem ok_prices None];
+    [RProposer x_meta ok_mem ok_prices (Some 78)];
+    [RValidator ok_D];
+    [RProposer x_meta ok_mem ok_prices None; RValidator T];
+    [RProposer x_meta ok_mem ok_prices (Some 78); RValidator T];
+    [RValidator ok_D; RValidator T; RValidator ok_D] ].
+
+Example nt_cached_comparison_rejects_every_twin :
+  forallb (fun T => negb (proposal_eqb (b_meta ok_D, b_data ok_D) (b_meta T, b_data T)))
+          [nt_misb; nt_time; nt_proposer; nt_nvh; nt_round; nt_votes] = true /\
+  proposal_eqb (b_meta ok_D, b_data ok_D) (b_meta nt_hash, b_data nt_hash) = true.
+Proof. vm_compute. split; reflexivity. Qed.
+
+Example nt_all_paths_agree :
+  forallb (fun T =>
+    forallb (fun rs =>
+      match x_decide (c_init x_c) rs T, x_decide (c_init x_c) [] T with
+      | (OFinalized _ _ res1 r1 s1, Some c1), (OFinalized _ _ res2 r2 s2, Some c2) =>
+          list_eqb price_eqb (cl_vals (s_l s1)) (cl_vals (s_l s2)) &&
+          N.eqb (cl_time (s_l s1)) (cl_time (s_l s2)) && N.eqb (cl_nvh (s_l s1)) (cl_nvh (s_l s2)) &&
+          price_eqb (cl_block (s_l s1)) (cl_block (s_l s2)) &&
+          list_eqb N.eqb (cl_log (s_l s1)) (cl_log (s_l s2)) &&
+          N.eqb (cl_time (s_l s1)) (m_time (b_meta T)) &&
+          price_eqb (cl_block (s_l s1)) (b_hash T, m_proposer (b_meta T))
+      | _, _ => false
+      end) (nt_paths T)) near_twins = true.
+Proof. vm_compute. reflexivity. Qed.
+
+Example nt_all_paths_agree_exactly :
+  Forall (fun T => Forall (fun rs => x_decide (c_init x_c) rs T = x_decide (c_init x_c) [] T) (nt_paths T))
+         near_twins.
+Proof. repeat constructor. Qed.
+
+Example nt_paths_are_legal :
+  Forall (fun T => Forall (fun rs => x_legal x_c rs T) (nt_paths T)) near_twins.
+Proof.
+  repeat constructor.
+  all: try (vm_compute; reflexivity).
+  all: solve_hash_consistent.
+Qed.
+
+(** the evidence is acted upon: validator 2 is gone, on every path *)
+Example nt_misbehaving_validator_removed :
+  exists res r s, x_decide (c_init x_c) [RProposer x_meta ok_mem ok_prices None; RValidator nt_misb] nt_misb
+                  = (OFinalized cledger N res r s, Some s) /\
+                  cl_vals (s_l s) = [(0, 10); (1, 10); (3, 10)].
+Proof. eexists _, _, _. vm_compute. split; reflexivity. Qed.
+
+(** ... while the proposal the node had prepared keeps it: reusing the cached execution for the
+    near twin would fork the node *)
+Example nt_prepared_proposal_keeps_validator :
+  exists res r s, x_decide (c_init x_c) [RProposer x_meta ok_mem ok_prices (Some 78)] ok_D
+                  = (OFinalized cledger N res r s, Some s) /\
+                  cl_vals (s_l s) = [(0, 10); (1, 10); (2, 10); (3, 10)].
+Proof. eexists _, _, _. vm_compute. split; reflexivity. Qed.
+
+(** the near twin was executed afresh (no cached proposal attached to the executed block) *)
+Example nt_twin_is_reexecuted :
+  a_exec cledger N (rounds cledger N cl_pre cl_check cl_exec cl_post cl_commit_of cl_uh_at (c_init x_c)
+                      [RProposer x_meta ok_mem ok_prices None; RValidator nt_misb])
+  = ExecutedBlock 178 None.
+Proof. vm_compute. reflexivity. Qed.
+
+(** every field but the last commit (which FinalizeBlock does not read) changes the result *)
+Example nt_fields_are_observable :
+  forallb (fun T =>
+    match x_decide (c_init x_c) [] T, x_decide (c_init x_c) [] ok_D with
+    | (OFinalized _ _ _ _ s1, _), (OFinalized _ _ _ _ s2, _) =>
+        negb (list_eqb price_eqb (cl_vals (s_l s1)) (cl_vals (s_l s2)) &&
+              N.eqb (cl_time (s_l s1)) (cl_time (s_l s2)) && N.eqb (cl_nvh (s_l s1)) (cl_nvh (s_l s2)) &&
+              price_eqb (cl_block (s_l s1)) (cl_block (s_l s2)))
+    | _, _ => false
+    end) [nt_misb; nt_time; nt_proposer; nt_nvh; nt_hash] = true.
+Proof. vm_compute. reflexivity. Qed.
+
+Lemma near_twins_exercised :
+  Forall (fun T => b_data T = b_data ok_D /\ T <> ok_D) near_twins /\
+  Forall (fun T => Forall (fun rs => x_legal x_c rs T) (nt_paths T)) near_twins /\
+  Forall (fun T => Forall (fun rs => x_decide (c_init x_c) rs T = x_decide (c_init x_c) [] T) (nt_paths T))
+         near_twins /\
+  (exists res r s, x_decide (c_init x_c) [RProposer x_meta ok_mem ok_prices None; RValidator nt_misb] nt_misb
+                   = (OFinalized cledger N res r s, Some s) /\
+                   cl_vals (s_l s) = [(0, 10); (1, 10); (3, 10)]) /\
+  (exists res r s, x_decide (c_init x_c) [RProposer x_meta ok_mem ok_prices (Some 78)] ok_D
+                   = (OFinalized cledger N res r s, Some s) /\
+                   cl_vals (s_l s) = [(0, 10); (1, 10); (2, 10); (3, 10)]).
+Proof.
+  split.
+  { repeat constructor; try reflexivity; intros E; apply (f_equal b_hash) in E; vm_compute in E;
+      discriminate E. }
+  split; [exact nt_paths_are_legal|].
+  split; [exact nt_all_paths_agree_exactly|].
+  split; [exact nt_misbehaving_validator_removed|exact nt_prepared_proposal_keeps_validator].
+Qed.
+
+(* ------------------------------------------------------------------------------------------ *)
 (** * The mempool hypothesis of [legal] is needed (finding F15): construction checks are made on
     the state a block starts from by ProcessProposal and by a fresh FinalizeBlock, never by
     PrepareProposal.  A mempool holding a transaction that went stale -- here: "add pair 1",
@@ -223,7 +366,7 @@ Qed.
     construction on every other path. *)
 
 Definition t_add_btc : tx :=
-  {| tx_id := 5; tx_signer := 0; tx_nonce := 1; tx_group := 2; tx_body := 0; tx_oacts := [OAdd [1]] |}.
+  {| tx_id := 5; tx_signer := 0; tx_nonce := 1; tx_group := 2; tx_body := 0; tx_oacts := [OAdd [1]]; tx_vupd := [] |}.
 Definition stale_mem := [t_remove_btc; t_add_btc].
 Definition stale_D : block :=
   {| b_hash := 90; b_meta := x_meta; b_data := prepared_data x_c x_meta stale_mem [] |}.
